@@ -31,6 +31,8 @@ class RefHSM(object):
 
   def _enter(self, n, calls, actions, fx):
     st = self.sp.states[n]
+    if self.fault and self.fault['kind'] == 'enter' and self.fault['state'] == n:
+      raise FaultReached(n)
     calls.append(('ENTRY', n))
     if st['entry_clause']:
       actions.append(('entry', n))
